@@ -306,6 +306,8 @@ class Reporter:
         self.violations = []   # (signature, description, replay_obj)
         self.known_hits = {}
         self.known = [k for k in load_known().get("findings", []) if k["property"] == pid]
+        if os.environ.get("VERIF_IGNORE_KNOWN") == "1":   # development aid: show known findings as violations (to regenerate examples)
+            self.known = []
         self.cov = {"samples": []}
         self.assumptions = []
         self.notes = []
